@@ -56,20 +56,21 @@ type KnownFile struct {
 
 // Run is the state of one property check.
 type Run struct {
-	W        *World
-	Prop     string
-	Tier     string
-	Obs      []Obligation
-	Stats    map[string]int
-	curRule  string
+	W       *World
+	Prop    string
+	Tier    string
+	Obs     []Obligation
+	Stats   map[string]int
+	curRule string
 	// ruleAlias, when set, renames the obligations of a rule function that is shared between
 	// two properties (e.g. the control-message layout tables serve C08 and C03).
 	ruleAlias string
-	known    []KnownFinding
-	Explain  []string
-	NotDec   []string
-	Trusted  []string
-	funcsSet map[string]bool
+	known     []KnownFinding
+	Explain   []string
+	NotDec    []string
+	Trusted   []string
+	funcsSet  map[string]bool
+	bnd       map[string]*bndRun
 }
 
 func newRun(w *World, prop, tier string, known []KnownFinding) *Run {
